@@ -462,7 +462,23 @@ def r4_jobs_clean(chk: Check):
     # the experiment -> jobs map used for the restriction: built from every xp/*/jobs/*/*
     chk.require("for job in p.glob('jobs/*/*')" in src(f.node), chk.fkey(f, "experiment map"), "the experiment restriction must be built from every experiment index", loc)
     # unfinished experiments prevent clean/kill without --perform
-    ok = any(isinstance(x, ast.If) and src(x.test) == "not perform and (kill or clean)" for x in ast.walk(f.node))
+    from ..dataflow import truth_of
+
+    def disables(x):
+        names = {t.id for s in x.body if isinstance(s, ast.Assign) and isinstance(s.value, ast.Constant) and s.value.value is False for t in s.targets if isinstance(t, ast.Name)}
+        return {"kill", "clean"} <= names
+
+    ok = False
+    for x in ast.walk(f.node):
+        if isinstance(x, ast.If) and disables(x) and g.nodes_of(x.body[0]):
+            # the test must be true whenever kill or clean is requested without --perform, and never with --perform
+            good = True
+            for perform, kill, clean in itertools.product([False, True], repeat=3):
+                v = truth_of(x.test, lambda t: (t, True) if t in ("perform", "kill", "clean") else None, {"perform": perform, "kill": kill, "clean": clean})
+                if v is None or (v and perform) or (not v and not perform and (kill or clean)):
+                    good = False
+            if good and any(n.kind == "test" and src(n.ast) == "(p / 'jobs.bak').is_dir()" and pol is True for n0 in g.nodes_of(x.body[0]) for n, pol in g.guards(n0)):
+                ok = True
     chk.require(ok, chk.fkey(f, "unfinished experiment guard"), "with an unfinished experiment, kill/clean must be disabled unless --perform", loc)
 
 
